@@ -201,7 +201,14 @@ ShadowProg(nm, i) ==
     [] i = 32 -> <<G, Def("f", Fn0(<<Const("k", S("!")), Def(nm, Id("g")), If(T, <<If(T, <<Ret(Bin("+", UU, Id("k")))>>, <<>>)>>, <<>>), Ret(I(0))>>)), Ret(C0(Id("f")))>>
     [] i = 33 -> <<G, Const("k", S("!")), If(T, <<Def(nm, Id("g")), Ret(Bin("+", UU, Id("k")))>>, <<>>), Ret(I(0))>>
     [] i = 34 -> <<G, Const("k", S("!")), Ret(Arr(<<UU, Id("k")>>))>>      \* no shadowing, const path folds the builtin
-NShadow == 34
+    \* no shadowing, a constant in scope, the use inside a unary expression of a nested function / block (the optimizer
+    \* evaluates it from the nested scope)
+    [] i = 35 -> <<G, Const("k", I(2)), Def("f", Fn0(<<Ret(Arr(<<Un("!", UU), Id("k")>>))>>)), Ret(C0(Id("f")))>>
+    [] i = 36 -> <<G, Const("k", I(2)), If(T, <<Ret(Arr(<<Un("!", UU), Bin("+", Id("k"), I(1))>>))>>, <<>>), Ret(I(0))>>
+    \* the catch identifier is visible in the finally block of its statement
+    [] i = 37 -> <<G, Try(<<Thr(S("e"))>>, TRUE, nm, <<Asg(nm, Id("g"))>>, TRUE, <<Ret(UU)>>)>>
+    [] i = 38 -> <<G, Try(<<Thr(S("e"))>>, TRUE, nm, <<Asg(nm, Id("g"))>>, TRUE, <<Try(<<Ret(UU)>>, TRUE, "e2", <<Ret(S("c"))>>, FALSE, <<>>)>>)>>
+NShadow == 38
 \* forms whose meaning (a param without argument) cannot be called with UU
 ShadowIdx == {x \in [f : {"shadow"}, nm : ShadowNames, i : 1..NShadow] : ~(x.i = 21)} \cup [f : {"shadow"}, nm : {"len"}, i : {21}]
 
